@@ -207,6 +207,12 @@ def check(P: Project, R: Report) -> None:
             _arms(e.orelse, depth)
         elif isinstance(e, ast.Name) and depth < 3:
             ds_ = [s_.value for s_ in walk_local(f.node) if isinstance(s_, ast.Assign) and any(isinstance(t, ast.Name) and t.id == e.id for t in s_.targets)]
+            # … or bound pairwise: `target, label = DEVNULL, "suppressed"`
+            for s_ in walk_local(f.node):
+                if isinstance(s_, ast.Assign) and isinstance(s_.value, ast.Tuple):
+                    for t in s_.targets:
+                        if isinstance(t, ast.Tuple) and len(t.elts) == len(s_.value.elts):
+                            ds_ += [v_ for t_, v_ in zip(t.elts, s_.value.elts) if isinstance(t_, ast.Name) and t_.id == e.id]
             if not ds_:
                 arms.append(e)
             for d_ in ds_:
